@@ -78,7 +78,7 @@ def progOfJson (j : Json) : R Prog := do
   let body ← stmtsOfJson (j.compress.length + 1) (← jarr (← jget j "body"))
   pure { lets, regs, body }
 
-/-- `Sx.toJson` is `partial` in Base; this is the same function by structural recursion. -/
+/-- The same function as `Sx.toJson` of Base, by structural recursion. -/
 def sxJson : Sx → Json
   | .str s => .str s
   | .int v => jobj [("i", jofInt v)]
